@@ -100,6 +100,32 @@ func catalogue(pc *world.ProducerChain, T int) []item {
 			h.DataHash = emptyHash
 		}), light: true})
 	}
+	// identity matrix: every combination of (header proposer address, signer address, carried public key) over
+	// {proposer's, attacker's}, always signed with the attacker's key (the only key the adversary has), for an
+	// otherwise valid next block. Only the all-proposer identity would be genuine, and that one cannot be signed.
+	proposerPub := pc.Header(0).Signer.PubKey
+	proposerAddr := pc.Header(0).ProposerAddress
+	for _, pa := range []string{"P", "A"} {
+		for _, sa := range []string{"P", "A"} {
+			for _, pk := range []string{"A", "P"} {
+				if pa == "P" && sa == "P" && pk == "A" {
+					continue // = forged-empty-block above
+				}
+				pa, sa, pk := pa, sa, pk
+				h := forge(pc, T, func(h *types.SignedHeader) {
+					h.DataHash = emptyHash
+					h.ProposerAddress = map[string][]byte{"P": proposerAddr, "A": attacker.Addr()}[pa]
+					h.Signer.Address = map[string][]byte{"P": proposerAddr, "A": attacker.Addr()}[sa]
+					if pk == "P" {
+						h.Signer.PubKey = proposerPub
+					}
+				})
+				for _, ch := range []string{"da", "p2p-header"} {
+					out = append(out, item{Kind: fmt.Sprintf("mixed-identity-empty-block(proposer-address=%s,signer-address=%s,public-key=%s; P=proposer's A=attacker's)", pa, sa, pk), Channel: ch, hdr: h, light: true})
+				}
+			}
+		}
+	}
 	// forged signed data alone on the DA layer, junk data on P2P
 	out = append(out, item{Kind: "forged-signed-data(attacker key under proposer address)", Channel: "da", sdata: fsd})
 	out = append(out, item{Kind: "junk-p2p-data-with-plausible-metadata", Channel: "p2p-data", data: fd})
